@@ -333,6 +333,8 @@ plus (for 2 cases out of 3) a (base, reference) pair of generated members with d
     let mut seen = std::collections::HashSet::new();
     let range: Vec<usize> = match a.only { Some(i) => vec![i], None => (0..a.n).collect() };
     let verbose = a.only.is_some();
+    const CAP: u64 = 400;
+    let mut total_failures: u64 = 0;
     for idx in range {
         let mut r = base.fork(idx as u64);
         // ---------- the string ----------
@@ -394,14 +396,14 @@ plus (for 2 cases out of 3) a (base, reference) pair of generated members with d
                             let (pb, pr) = (parse5(&b), parse5(&rf));
                             let dotty = |p: &str| p.split('/').any(|x| x == "." || x == "..");
                             let tag = if pr.scheme.is_some() || pr.authority.is_some() { "dot segments are kept in a reference that has a scheme or an authority" }
-                                else if dotty(&pb.path) { "dot segments of the base path are kept" }
+                                else if !pr.path.starts_with('/') && !pr.path.is_empty() && dotty(&pb.path) { "dot segments of the base path are kept" }
                                 else if pb.authority.is_none() { "'..' above the root of a base without authority" }
                                 else { "other" };
                             fails.push(format!("[resolve differs from RFC 3986 5.2: {tag}] resolving {} against {} gives {} but RFC 3986 5.2 gives {}", show(&rf), show(&b), show(g), show(&expected)));
                             sum.bump(&format!("resolve:differs-from-5.2:{tag}"));
                         }
-                        else if !rfc_iri(g) { fails.push(format!("resolving {} against {} gives {} which is not an RFC 3987 IRI", show(&rf), show(&b), show(g))); }
-                        else if !Iri::new(g.as_str()).is_ok() && vb.o_iri && (vr.o_iri || vr.o_rel) { fails.push(format!("resolving {} against {} gives {} which Iri::new rejects", show(&rf), show(&b), show(g))); }
+                        if !rfc_iri(g) { fails.push(format!("[resolve result is not an IRI] resolving {} against {} gives {} which is not an RFC 3987 IRI", show(&rf), show(&b), show(g))); }
+                        else if !Iri::new(g.as_str()).is_ok() && vb.o_iri && (vr.o_iri || vr.o_rel) { fails.push(format!("[resolve result is rejected] resolving {} against {} gives {} which Iri::new rejects", show(&rf), show(&b), show(g))); }
                         if got2.as_ref().ok() != Some(g) { fails.push(format!("Iri::resolve and BaseIri::resolve differ on base {} ref {}: {:?} vs {}", show(&b), show(&rf), got2, show(g))); }
                     }
                     Err(p) => { fails.push(format!("[resolve panics] resolving the accepted reference {} against the accepted base {} panics ({p}); RFC 3986 5.2 gives {}", show(&rf), show(&b), show(&expected))); sum.bump("resolve:panic"); }
@@ -418,7 +420,13 @@ plus (for 2 cases out of 3) a (base, reference) pair of generated members with d
             println!("  coq: {body}");
         }
         sum.bump(match (v.o_iri, v.o_rel) { (true, _) => "rfc:IRI", (_, true) => "rfc:irelative-ref", _ => "rfc:invalid" });
-        for f in &fails { sum.oracle_failures.push((idx.to_string(), f.clone())); }
+        // every failure is counted; at most CAP per category are listed in the summary (the first ones)
+        for f in &fails {
+            let key = format!("oracle-failure:{}", f.split(|c| c == '(' || c == ']').next().unwrap_or("").trim_start_matches('['));
+            sum.bump(&key);
+            total_failures += 1;
+            if sum.dist.iter().find(|e| e.0 == key).map_or(0, |e| e.1) <= CAP { sum.oracle_failures.push((idx.to_string(), f.clone())); }
+        }
         if !fails.is_empty() { sum.bump("cases-with-oracle-failure"); }
         if seen.insert(text.clone()) && nontrivial { sum.distinct_nontrivial += 1; }
         if sum.samples.len() < 6 && nontrivial && idx >= sys.len() { sum.samples.push(format!("case {idx}: {text} => abs={} rel={}", v.abs, v.rel)); }
@@ -430,7 +438,8 @@ plus (for 2 cases out of 3) a (base, reference) pair of generated members with d
         sum.shards = write_shards(&a.out, header, &cases, a.shards);
         sum.extra.push(("coq_cases".into(), cases.len().to_string()));
         sum.extra.push(("systematic_strings".into(), sys.len().to_string()));
+        sum.extra.push(("oracle_failures_total".into(), total_failures.to_string()));
         std::fs::write(format!("{}/summary.json", a.out), sum.to_json()).unwrap();
     }
-    println!("c09: {} cases ({} systematic available), {} distinct non-trivial, {} oracle failures", sum.evaluations, sys.len(), sum.distinct_nontrivial, sum.oracle_failures.len());
+    println!("c09: {} cases ({} systematic available), {} distinct non-trivial, {} oracle failures ({} listed)", sum.evaluations, sys.len(), sum.distinct_nontrivial, total_failures, sum.oracle_failures.len());
 }
